@@ -50,6 +50,10 @@ func (a *Activation) mapLen(st *State, m Term, mt *types.Map) Term {
 	// len as bv64 with card>=0; relation kept abstract (int2bv avoided): fresh bv constrained by sign only
 	l := g.fresh("maplen", bvSort(64))
 	g.assertLine(and(bvcmp("bvsge", l, bv64(0)), bvcmp("bvsle", l, bv64(1<<40)), eq(eq(l, bv64(0)), eq(card, T("Int", "0")))), l)
+	// an empty map has no member (and a nil map is empty)
+	hasArr := sel(g.heap(st, g.mapHasSort(mt)), m)
+	emptyArr := T(hasArr.Sort, fmt.Sprintf("((as const %s) false)", hasArr.Sort))
+	g.assertLine(implies(eq(l, bv64(0)), or(eq(m, nilLoc), eq(hasArr, emptyArr))), l)
 	return l
 }
 
